@@ -6,7 +6,8 @@ D2 the leap-second lookup and the 1972 test on construction use the civil
 date, 1972-01 (R-INV-GUARD); D3 the explicit leap_seconds override replaces the
 table value in both directions with the same 32.184 + 10 s (R-SIB); D4 Delta-T
 polynomial: jumps < 1 s at every joint after -500 and within 3.5 s of
-42.184 + leap seconds over 1972-2018 (R-POLY, evaluated on the extracted polynomials)."""
+42.184 + leap seconds over 1972-2018 (R-POLY, evaluated on the extracted polynomials);
+D7 offset and 1 ms read-back on the property's grid by exact execution (R-UTCGRID)."""
 from fractions import Fraction
 
 from .. import symx, terms as T
@@ -17,9 +18,9 @@ from .. import effects, guards
 
 MANIFEST = {
     "level": "other",
-    "technique": "static analysis: literal-table audit against the IERS leap-second list, taint rule on the January/February shift (symbolic evaluation of _compute_jde), inverse-guard comparison of the two activation predicates, branch sibling comparison for the override, partial evaluation of constructor and read-back for every keyword combination, recovery of the decision structure of leap_seconds(year, month) (loop over the literal table unrolled) and comparison with the IERS step function on every ordering class, polynomial extraction and exact evaluation of the Delta-T segments, day-of-year tables of the read-back path (shared with C16)",
-    "text": "The table clause is decided outright (the table is a literal). The offset clauses are decided structurally for every date at once: the leap-second lookup and the 1972 threshold see the civil year/month, construction and read-back switch on at the same (year, month) = (1972, 1), the override branch is the automatic branch with the table value replaced, every combination of the utc / leap_seconds / local keywords reaches the documented branch (a supplied value always wins), and leap_seconds(year, month) selects the IERS count for every (year, month). The Delta-T clauses are decided on the polynomials extracted from the source. The 1 ms read-back is not decided.",
-    "note": "Trusted: the IERS Bulletin C history embedded in the checker (27 insertions 1972-2016); TT-TAI = 32.184 s and TAI-UTC(1972-01-01) = 10 s as stated in the property. Undecided: 1 ms read-back.",
+    "technique": "static analysis: literal-table audit against the IERS leap-second list, taint rule on the January/February shift (symbolic evaluation of _compute_jde), inverse-guard comparison of the two activation predicates, branch sibling comparison for the override, partial evaluation of constructor and read-back for every keyword combination, recovery of the decision structure of leap_seconds(year, month) (loop over the literal table unrolled) and comparison with the IERS step function on every ordering class, polynomial extraction and exact evaluation of the Delta-T segments, day-of-year tables of the read-back path (shared with C16), exact execution (rational arithmetic) of the extracted UTC->TT construction and TT->UTC read-back terms, with the library's own leap_seconds / get_doy / doy2date terms substituted for the calls, on the property's (year, month) x day x time grid 1950..2100 and with explicit overrides 0..60",
+    "text": "The table clause is decided outright (the table is a literal). The offset clauses are decided structurally for every date at once: the leap-second lookup and the 1972 threshold see the civil year/month, construction and read-back switch on at the same (year, month) = (1972, 1), the override branch is the automatic branch with the table value replaced, every combination of the utc / leap_seconds / local keywords reaches the documented branch (a supplied value always wins), and leap_seconds(year, month) selects the IERS count for every (year, month). The Delta-T clauses are decided on the polynomials extracted from the source. The offset and the 1 ms read-back are then decided cell by cell on the grid the property names - every (year, month) 1950..2100 x days 1, 15, last x 0h, 12h, 23:59:59 (quick tier: the month-boundary cells of every month plus the full grid around 1972 and 2017), and leap_seconds overrides 0..60 - by exact execution of the extracted construction and read-back terms: the Epoch built with utc=True is exactly 32.184 + 10 + IERS count seconds later than the same date taken as TT (nothing before 1972; the supplied count with an override) and reads back as the civil date to 1 ms. This found the insertion-day defect repaired in 68be528 (23:59:59 UTC read back one second early).",
+    "note": "Trusted: the IERS Bulletin C history embedded in the checker (27 insertions 1972-2016); TT-TAI = 32.184 s and TAI-UTC(1972-01-01) = 10 s as stated in the property. Undecided: read-back at times of day off the grid; leap_seconds=0 is documented as `no override`; float vs exact evaluation.",
 }
 
 # IERS Bulletin C: dates at which the cumulative count becomes n (1 July -> year + 0.5, 1 January -> year + 0.0)
